@@ -1163,7 +1163,7 @@ def expand_connectors(node: ast.Class) -> None:
 
     # disconnected flow variables default to 0
     for sym in disconnected_flow_variables.values():
-        connect_equation = ast.Equation(left=sym, right=ast.Primary(value=0))
+        connect_equation = ast.Equation(left=ast.ComponentRef(name=sym.name), right=ast.Primary(value=0))
         node.equations.append(connect_equation)
 
     # strip connector symbols
@@ -1179,7 +1179,7 @@ def add_state_value_equations(node: ast.Node) -> None:
     for sym in node.symbols.values():
         if not (isinstance(sym.value, ast.Primary) and sym.value.value is None):
             if len(non_state_prefixes & set(sym.prefixes)) == 0:
-                node.equations.append(ast.Equation(left=sym, right=sym.value))
+                node.equations.append(ast.Equation(left=ast.ComponentRef(name=sym.name), right=sym.value))
                 sym.value = ast.Primary(value=None)
 
 
